@@ -93,7 +93,7 @@ CLAIMS['C14'] = dict(
     technique='CBMC dfcc function + loop contracts against ghost models of deflate / lzma_code and the inner writer', design_ref='6/C14, 12.2')
 CLAIMS['C15'] = dict(
     text="Ordering automaton over ofstream/rename events with nondeterministic failures: Writer<std::string>::close, rotate_output (real close/open bodies) and destructor rename '.part' to the final name only after flush and close of the stream, exactly once per closed file, never when no file is open; CdnsEncoder::rotate_output/~CdnsEncoder hand every produced byte to the sink first (incl. the closing break: enc.write_break, exp.dtor, exp.rotate_output.*); compressor destructors/close finish and forward the trailer before the inner writer is touched.",
-    note=COMMON_NOTE + "Crash points are collapsed to this happens-before statement under POSIX rename atomicity; path names are uninterpreted concatenations (the file is opened as <name><suffix> + the literal ".part" and renamed only to its own <name><suffix>); the C++ order of member destruction (inner writer after the compressor's destructor body) is not modelled.",
+    note=COMMON_NOTE + "Crash points are collapsed to this happens-before statement under POSIX rename atomicity; path names are uninterpreted concatenations (the file is opened as <name><suffix> + the literal '.part' and renamed only to its own <name><suffix>); the C++ order of member destruction (inner writer after the compressor's destructor body) is not modelled.",
     technique='CBMC dfcc contract on the lowered template specialisation against a ghost event automaton', design_ref='6/C15, 12.2')
 CLAIMS['C16'] = dict(
     text="Writer<int>::write returns normally iff the OS accepted every byte (short or failed ::write raises); CdnsEncoder::rotate_output propagates a rejected flush, does not rotate then and keeps the buffered bytes; on an output failure write_block() leaves the buffered records untouched and rotate_output to a healthy output re-establishes the exporter invariant (exp.* units with a failing sink). 'rotate_output never returns normally for an output that lost bytes' is checked on the compressing writers and on the named-file writer and is a KNOWN FINDING for both (close() swallows; the stream failbit is never looked at).",
